@@ -23,6 +23,7 @@ from pyPRISM.core.Space import Space
 from .. import core
 from .. import refmodel as R
 from .. import gen as G
+from .. import tutorials as T
 
 PID = 'C16'
 RULE = ('omission cases = subsets of size 1-2 (quick) / 1-3 (thorough, up to 400 per rank and size) of {domain, each density, each diameter, each pair\'s potential/closure/omega} left '
@@ -159,6 +160,9 @@ def items_of(sp):
 
 def cases(ctx):
     rng = ctx.rng('c16')
+    for i, name in enumerate(T.NAMES):
+        if ctx.mine(i):
+            yield {'kind': 'tutorial', 'name': name}
     # --- omissions (systematic)
     idx = 0
     for rank in (1, 2, 3):
@@ -638,8 +642,30 @@ def run_sweep(ctx, case):
     ctx.sample({'sweep': steps}, limit=2)
 
 
+def run_tutorial(ctx, case):
+    """the maintainers' sweeps (one System re-specified step by step): every PRISM object is wired from the System's state at that
+    moment, and creating / solving it leaves the System as it was"""
+    st = {}
+
+    def before_create(sp, s):
+        st['digest'] = digest(s)
+
+    def on_step(sp, s, p, res, label):
+        ctx.hook('tutorial.step_judged')
+        check_wiring(ctx, p, sp, label)
+        if digest(s) != st['digest']:
+            ctx.violation('snapshot:system-modified-by-createPRISM-or-solve', '%s: the System differs after createPRISM/solve: %s' % (label, 'digest changed'))
+        ctx.count('tutorial', case['name'])
+    nok, n = T.run(case['name'], on_step, before_create=before_create)
+    ctx.count('tutorial_steps', '%s: %d of %d solved' % (case['name'], nok, n))
+    if nok:
+        ctx.nontrivial(['tutorial', case['name']])
+
+
 def run_case(ctx, case):
     k = case['kind']
+    if k == 'tutorial':
+        return run_tutorial(ctx, case)
     if k == 'omit':
         return run_omit(ctx, case)
     if k == 'snapshot':
